@@ -1,10 +1,9 @@
-\* Trace validation: NC / OpsPer are upper bounds of the recorded runs, Limit the stores' retry
-\* limit; MaxErr = Limit (the recorded callers' functions may fail as often as they like).
+\* Trace validation: NC / OpsPer are upper bounds of the recorded runs, the retry limit comes with each line; MaxErr = Limit (the recorded callers' functions may fail as often as they like).
 CONSTANTS
   NC = 16
   OpsPer = 50
   Backends = {"consul", "etcd", "memberlist"}
-  Limit = 10
+  Limits = {2, 3, 10}
   MaxErr = 10
   Secondaries = {"none"}
   WithDelete = FALSE
